@@ -41,6 +41,13 @@ CLAIMED["C13"] = {
     "design": "4/C13",
 }
 
+CLAIMED["C05"] = {
+    "text": "Lean theorems over the argument-parser model, for every module tree and word vector: on success the groups' path words and arguments concatenated are exactly the command line (each word used once, in order); each group's argument count is within [min,max] of its recipe and greedy; the grouping loop terminates within its fuel; for every analyzer-valid parameter list and count in range binding succeeds with one value per parameter (never 'missing parameter'); singular/variadic/star/plus/default binding rules; a supplied word ignores the default; leading NAME=VALUE words are the overrides and nothing after the first other word is. Correspondence against the binary: every valid signature with <=3 parameters x 0..5 words x 4 command-line shapes (exhaustive) and random module trees x adversarial word vectors; groups, bound values, error kind, nothing-ran-on-error and number of default evaluations compared with the model.",
+    "note": "Trusted: Lean kernel; Args model (tied by the differential run); clap option parsing (first word never starts with `-`); leading search-directory words belong to C16. Values observed through the logging shell.",
+    "technique": "Lean 4 proof + exhaustive small-scope differential against the binary",
+    "design": "4/C05",
+}
+
 PENDING = "check not built yet in this session (see DESIGN.md build order); no claim is made"
 
 
